@@ -28,7 +28,7 @@ type lexeme struct {
 func lx(text, typ, lit string) lexeme { return lexeme{[]lexTok{{text, typ, lit}}} }
 
 var lexReps = []lexeme{
-	lx("abc", "IDENT", "abc"), lx("né_1", "IDENT", "né_1"), lx("script", "SCRIPT", "script"), lx("TRUE", "TRUE", "TRUE"),
+	lx("abc", "IDENT", "abc"), lx("né_1", "IDENT", "né_1"), lx("Éa", "IDENT", "Éa"), lx("日本", "IDENT", "日本"), lx("script", "SCRIPT", "script"), lx("TRUE", "TRUE", "TRUE"),
 	lx("7", "INT", "7"), lx("0435", "INT", "0435"), lx("0x1F", "INT", "0x1F"), lx("0", "INT", "0"), lx("-3", "INT", "-3"),
 	lx(`"x y"`, "STRING", "x y"), lx(`"é"`, "STRING", "é"),
 	{[]lexTok{{"ascii", "STRINGTYPE", "ascii"}, {`"z"`, "STRING", "z"}}},
